@@ -48,6 +48,42 @@ Theorem T16_1_partial_no_with :
 Proof. exact blocking_sound_no_with. Qed.
 Print Assumptions T16_1_partial_no_with.
 
+(* ===================== classification of `for` iterables inside is_blocking ===================== *)
+Require Import Pyrefact.IterModel Pyrefact.IterProofs.
+
+(* T16.7  core.is_blocking evaluates the iterable with literal_value and decides emptiness by ITERATING;
+   for every iterable expression (displays, strings, range, enumerate, zip, reversed, sorted, list, tuple, set,
+   iter, nested): classified empty => the loop iterates over nothing; classified non-empty => over at least
+   one item.  These are the premises of the IEmpty / INonEmpty clauses of FlowModel.outcomes. *)
+Theorem T16_7_classify_empty_sound : forall x, classify x = IEmpty -> elements x = Some [].
+Proof. exact classify_empty_sound. Qed.
+Print Assumptions T16_7_classify_empty_sound.
+
+Theorem T16_7b_classify_nonempty_sound :
+  forall x, classify x = INonEmpty -> exists v l, elements x = Some (v :: l).
+Proof. exact classify_nonempty_sound. Qed.
+Print Assumptions T16_7b_classify_nonempty_sound.
+
+Theorem T16_7c_for_blocking_sound : forall x body orelse,
+  is_blocking (SFor (classify x) body orelse) PNone = true ->
+  (exists v l, elements x = Some (v :: l)) /\ o_n (outcomes false (SFor (classify x) body orelse)) = false.
+Proof. exact for_blocking_sound. Qed.
+Print Assumptions T16_7c_for_blocking_sound.
+
+(* R16.7  the emptiness test must iterate: the truth value of an enumerate / zip / reversed object says
+   nothing (`for i, x in enumerate(()): return x` would be judged blocking) ... *)
+Theorem R16_7_truthiness_test_refuted :
+  exists x, classify_by_truthiness x = INonEmpty /\ elements x = Some [] /\
+            is_blocking (SFor (classify_by_truthiness x) [SReturn] []) PNone = true.
+Proof. exact truthiness_test_refuted. Qed.
+Print Assumptions R16_7_truthiness_test_refuted.
+
+(* ... while both tests agree on lists, tuples, strings, sets and ranges *)
+Theorem T16_7d_truthiness_agrees_on_containers : forall x k l,
+  lit_value x = Some (k, l) -> k <> OKIter -> classify_by_truthiness x = classify x.
+Proof. exact truthiness_agrees_on_containers. Qed.
+Print Assumptions T16_7d_truthiness_agrees_on_containers.
+
 (* ===================== "pointless" half: core.has_side_effect ===================== *)
 (* (EffectModel has its own statement type; from here on `stmt`, `SIf`, ... are EffectModel's) *)
 From Coq Require Import String.
